@@ -70,7 +70,7 @@ def tzobjs():
 
 
 class TzSpec:
-    """a tzinfos argument: kind 'none' | 'map' | 'call'; entries {name|None: ('o',k)|('s',str)|('i',int)|('n',)|('b',)};
+    """a tzinfos argument: kind 'none' | 'map' | 'call'; entries {name|None: ('o',k)|('s',str)|('i',int)|('n',)|('b',)|('r',) = the callable raises ValueError};
     dflt (callable only): same tuple or ('e',)"""
     def __init__(self, kind="none", entries=None, dflt=("n",)):
         self.kind, self.entries, self.dflt = kind, dict(entries or {}), dflt
@@ -88,6 +88,8 @@ class TzSpec:
             return 1.5
         if t[0] == "e":
             return off
+        if t[0] == "r":
+            raise ValueError("the user's tzinfos callable does not know %r" % (name,))
         raise AssertionError(t)
 
     def arg(self):
@@ -98,7 +100,7 @@ class TzSpec:
         ent, dflt = self.entries, self.dflt
         def fn(name, off):
             if name in ent:
-                return self.value(ent[name])
+                return self.value(ent[name], name, off)
             return self.value(dflt, name, off)
         return fn
 
